@@ -225,6 +225,17 @@ def sequential_job(job):
                         got.append(next(held["it"]).data)
                     except StopIteration:
                         break
+            elif op[0] == "mark-closed":   # close() the subscription but keep advancing its iterator (close inside a `for` body
+                                           # without break; close() from another thread): nothing more may be consumed
+                if held.get("sub") is None:
+                    held["sub"] = tr.subscribe(op[1])
+                    held["it"] = iter(held["sub"])
+                held["sub"].close()
+                for _ in range(op[2]):
+                    try:
+                        got.append(next(held["it"]).data)
+                    except StopIteration:
+                        break
             elif op[0] == "close":         # stop iterating and close the held subscription
                 it, sub = held.pop("it", None), held.pop("sub", None)
                 if it is not None and hasattr(it, "close"):
@@ -284,6 +295,9 @@ def sequential_job(job):
         [("pub", "a.x", 2), ("pub", "a.y", 2), ("open", "a.*", 1), ("pub", "a.x", 1), ("pub", "a.y", 1), ("close",), ("drain", "*")])
     run("open, take two, publish, close, publish, drain",
         [("pub", "c", 4), ("open", "c", 2), ("pub", "c", 1), ("close",), ("pub", "c", 1), ("drain", "c")])
+    run("close() inside the loop body, iteration continues once", [("pub", "c", 4), ("open", "c", 1), ("mark-closed", "c", 2), ("close",), ("drain", "c")])
+    run("close() before the first next()", [("pub", "c", 2), ("mark-closed", "c", 1), ("close",), ("drain", "c")])
+    run("close() of a wildcard subscription mid-way", [("pub", "a.x", 2), ("pub", "a.y", 2), ("open", "a.*", 2), ("mark-closed", "a.*", 3), ("close",), ("drain", "*")])
     # a backlog: many undelivered messages on one channel (a late consumer), two channels, a wildcard drain
     run("backlog of 70000 messages on one channel, late consumer", [("pub", "bulk", 70000), ("drain", "bulk")])
     run("backlog on two channels, wildcard drain", [("pub", "b.x", 9000), ("pub", "b.y", 9000), ("pub", "b.x", 10), ("drain", "b.*")])
